@@ -198,7 +198,7 @@ class H5Shim(types.ModuleType):
                     name)
             log = []
             fo = SimFile(b"", log=log)
-            h = self._real.File(fo, "w")
+            h = self._real.File(fo, "w", *a, **kw)
             initial = b""
             disk.files.pop(name, None)   # O_TRUNC happens at open
         elif mode in ("a", "r+"):
@@ -207,20 +207,20 @@ class H5Shim(types.ModuleType):
                     raise FileNotFoundError(2, "Unable to open file", name)
                 log = []
                 fo = SimFile(b"", log=log)
-                h = self._real.File(fo, "w")
+                h = self._real.File(fo, "w", *a, **kw)
                 initial = b""
             else:
                 initial = disk.current_image(name)
                 log = []
                 fo = SimFile(initial, log=log)
-                h = self._real.File(fo, "r+")
+                h = self._real.File(fo, "r+", *a, **kw)
         elif mode == "r":
             if not disk.exists(name):
                 raise FileNotFoundError(
                     2, "Unable to synchronously open file (unable to open "
                        "file: No such file or directory)", name)
             fo = SimFile(disk.current_image(name), readonly=True)
-            return self._real.File(fo, "r")
+            return self._real.File(fo, "r", *a, **kw)
         else:
             raise ValueError("Invalid mode; must be one of r, r+, w, w-, x, a")
         fo._h5_closed = lambda h=h: not bool(h)
